@@ -8,6 +8,44 @@ from . import arrays as A, ops
 from .arrays import SArr
 
 
+def membership(x, values):
+    """boolean array: x[i] in values (values: a 1-d array / list).  Specification: member(v) <-> exists j. values[j] == v, given as
+    a witness function (member(v) -> values[wit(v)] == v) and the converse (forall j. member(values[j]))"""
+    import z3 as _z3
+    from .core import fresh_name
+    xa = A.as_sarr(x)
+    va = A.as_sarr(values)
+    if va.ndim != 1:
+        raise Unsupported("membership in an n-d array of values")
+    vs = va.snapshot()
+    m = A.T(va.shape[0])
+    srt = A.sort_of(np.result_type(xa.dtype, va.dtype))
+    cast_x = A.cast_fn(xa.dtype, np.result_type(xa.dtype, va.dtype), xa.snapshot())
+    cast_v = A.cast_fn(va.dtype, np.result_type(xa.dtype, va.dtype), vs)
+    member = _z3.Function(fresh_name("member"), srt, _z3.BoolSort())
+    wit = _z3.Function(fresh_name("member_at"), srt, _z3.IntSort())
+    j = _z3.Int(fresh_name("j"))
+    v = _z3.Const(fresh_name("v"), srt)
+    A.note_fact(_z3.ForAll([j], _z3.Implies(_z3.And(j >= 0, j < m), member(cast_v((j,)))), patterns=[cast_v((j,))]) if _has_uf(cast_v((j,))) else _z3.ForAll([j], _z3.Implies(_z3.And(j >= 0, j < m), member(cast_v((j,))))),
+                _z3.ForAll([v], _z3.Implies(member(v), _z3.And(wit(v) >= 0, wit(v) < m, cast_v((wit(v),)) == v)), patterns=[member(v)]))
+    out = SArr(np.dtype(bool), xa.shape, lambda idx: member(cast_x(idx)))
+    out.membership_of = {"member": member, "witness": wit, "values": cast_v, "n": m}
+    c = A.cur()
+    if c is not None:
+        if not hasattr(c, "member_log"):
+            c.member_log = []
+        c.member_log.append(out.membership_of)
+    return out
+
+
+def _has_uf(t):
+    import z3 as _z3
+    try:
+        return _z3.is_app(t) and t.decl().kind() == _z3.Z3_OP_UNINTERPRETED and t.num_args() > 0
+    except Exception:
+        return False
+
+
 class SSeries:
     _pyvc_ok = True
     _pyvc_series = True
@@ -44,6 +82,18 @@ class SSeries:
     def __len__(self):
         raise Unsupported("len(series) outside the interpreter")
 
+    def isna(self):
+        from .core import NAN
+        import z3 as _z3
+        if self.arr.dtype.kind != "f":
+            return SSeries(SArr(np.dtype(bool), self.arr.shape, lambda idx: _z3.BoolVal(False)))
+        s_ = self.arr.snapshot()
+        return SSeries(SArr(np.dtype(bool), self.arr.shape, lambda idx: s_(idx) == NAN))
+
+    def isin(self, values):
+        """A-PANDAS Series.isin(values): element-wise membership (specification shared with np.isin)"""
+        return SSeries(membership(self.arr, values))
+
     def _bin(self, o, op, rev=False):
         o = o.arr if isinstance(o, SSeries) else o
         return SSeries(ops.binop(op, o, self.arr) if rev else ops.binop(op, self.arr, o))
@@ -79,6 +129,9 @@ class SFrame:
     def length(self):
         return self.n if isinstance(self.n, int) else SV(self.n)
 
+    def copy(self, *a, **k):
+        return SFrame({c: SSeries(s_.arr.copy()) for c, s_ in self.cols.items()})
+
     @property
     def shape(self):
         return (self.length(), len(self.cols))
@@ -98,8 +151,12 @@ class SFrame:
             A.setitem(self.f.cols[col].arr, rows.arr if isinstance(rows, SSeries) else rows, v)
 
         def __getitem__(self, key):
+            if isinstance(key, tuple) and len(key) == 2 and isinstance(key[1], slice) and key[1] == slice(None):
+                # df.loc[rows, :] : the same rows of every column (row labels == positions; boolean masks and position arrays alike)
+                rows = key[0].arr if isinstance(key[0], SSeries) else key[0]
+                return SFrame({c: SSeries(A.getitem(s_.arr, rows)) for c, s_ in self.f.cols.items()})
             if not (isinstance(key, tuple) and len(key) == 2 and isinstance(key[1], str)):
-                raise Unsupported("df.loc[...] other than df.loc[rows, 'column']")
+                raise Unsupported("df.loc[...] other than df.loc[rows, 'column'] / df.loc[rows, :]")
             rows, col = key
             return SSeries(A.getitem(self.f.cols[col].arr, rows.arr if isinstance(rows, SSeries) else rows))
 
